@@ -8,6 +8,8 @@
 name: array_list_dup.elems
 define: U_LIST, B_ELEM
 src: array.c, obj.c
+native: array_obj
+native_includes: array.c
 enforce: spif_array_list_dup
 backend: sat
 loops: 1
@@ -16,6 +18,8 @@ loops: 1
 name: array_list_dup.placeholder
 define: U_LIST, B_NULL
 src: array.c, obj.c
+native: array_obj
+native_includes: array.c
 enforce: spif_array_list_dup
 backend: sat
 loops: 1
@@ -24,6 +28,8 @@ loops: 1
 name: array_vector_dup.elems
 define: U_VECTOR, B_ELEM
 src: array.c, obj.c
+native: array_obj
+native_includes: array.c
 enforce: spif_array_vector_dup
 backend: sat
 loops: 1
@@ -51,7 +57,7 @@ loops: 1
 #endif
 
 static spif_array_t DUPFN(spif_array_t self)
-__CPROVER_requires(ARRAY_VALID(self) && SLOT_K && SNAP_ITEM(self, vg_k, vg_old_k))
+__CPROVER_requires(ARRAY_VALID_W(self) && SLOT_K && SNAP_ITEM(self, vg_k, vg_old_k))
 __CPROVER_requires(CLSVAR == &CLSOBJ && vg_dup_cnt == 0 && VELEM_VALID(vg_dup_obj))
 __CPROVER_assigns(vg_cur, vg_dup_cnt, __CPROVER_object_whole(vg_dup_obj))
 __CPROVER_ensures(__CPROVER_is_fresh(__CPROVER_return_value, sizeof(*self)))
